@@ -359,6 +359,11 @@ func (x *g) strLit() string {
 	sb.WriteString(q)
 	for i := 0; i < n; i++ {
 		p := x.pick("strpiece", strPieces)
+		if !x.strict && x.chance("legacyoctal", 12) {
+			// legacy octal escapes (sloppy scripts only), also NUL before a digit
+			p = x.pick("octalpiece", []string{"\\000", "\\00", "\\0", "\\101", "\\12", "\\7", "\\47", "\\42", "\\140"}) + x.pick("octaltail", []string{"", "1", "8", "0", "a"})
+			x.feat("string-legacy-octal")
+		}
 		if p == q {
 			p = "\\" + p
 		}
@@ -395,6 +400,30 @@ func (x *g) tmplLit(depth int) string {
 }
 
 var regexes = []string{"/a/", "/[a-z]+/g", "/\\d+/", "/[/]/", "/\\//", "/a|b/i", "/(x)(y)?/", "/^s/m", "/[^\\]]/", "/\\s*,\\s*/g", "/\\u0041/u", "/./s", "/[\\d.]+/g", "/=/", "/ /"}
+
+var classAtoms = []string{"a", "z", "b", "\\^", "\\-", "\\[", "\\]", "\\\\", "\\d", "\\/", "/", ".", "\\.", "$", "\\$", "_", "0", "9", "^", "a-c", "x-z", "0-5", "\\-", "\\^", " ", "["}
+
+// regexClass builds /[...]/g from class atoms; an unescaped dash only appears first, last or inside a fixed range,
+// so that every generated class is valid.
+func (x *g) regexClass() string {
+	var sb strings.Builder
+	sb.WriteString("/[")
+	if x.chance("classneg", 4) {
+		sb.WriteString("^")
+	}
+	if x.chance("classleaddash", 6) {
+		sb.WriteString("-")
+	}
+	n := 1 + x.n("classn", 4)
+	for i := 0; i < n; i++ {
+		sb.WriteString(x.pick("classatom", classAtoms))
+	}
+	if x.chance("classtraildash", 6) {
+		sb.WriteString("-")
+	}
+	sb.WriteString("]/g")
+	return sb.String()
+}
 
 // ---------------------------------------------------------------------------
 // expressions
@@ -445,6 +474,10 @@ func (x *g) numExpr(d int) expr {
 	case 7:
 		if x.es(2016) {
 			l, r := x.numExpr(d-1), x.numLeaf()
+			if l.p == 14 && (strings.HasPrefix(l.s, "++") || strings.HasPrefix(l.s, "--")) && x.guard("noPrefixUpdateExpBase") {
+				x.prog.Excluded["noPrefixUpdateExpBase"]++
+				return l
+			}
 			x.feat("binary:**")
 			return expr{x.joinBin(x.par(l, 15), "**", x.par(r, 13)), 13}
 		}
@@ -793,6 +826,11 @@ func (x *g) strExpr(d int) expr {
 		x.feat("str-method")
 		return expr{x.par(s, 16) + m, 16}
 	case 7:
+		if x.chance("regexclass", 3) {
+			// a generated character class applied to a fixed alphabet: what is left shows which characters it matches
+			x.feat("regex-class")
+			return expr{"\"az^-[]\\\\/.$_059 bcxy\".replace(" + x.regexClass() + x.s() + "," + x.s() + "\"\")", 16}
+		}
 		s := x.strExpr(d - 1)
 		x.feat("regex-replace")
 		return expr{x.par(s, 16) + ".replace(" + x.pick("regex", regexes) + x.s() + "," + x.s() + x.strLit() + ")", 16}
@@ -1054,6 +1092,8 @@ func (x *g) fnBody(params []string, d int, ret typ, allowExprBody bool, o fnOpts
 	if !x.strict && !o.arrow && x.chance("fnstrict", 14) {
 		sb.WriteString("\"use strict\";")
 		x.feat("function-use-strict")
+		x.strict = true
+		defer func() { x.strict = false }()
 	}
 	n := x.n("fnstmts", 4)
 	sb.WriteString(x.stmts(n, d-1))
@@ -1464,13 +1504,15 @@ func (x *g) switchStmt(d int) string {
 		}
 		sb.WriteString(body)
 		if x.chance("casebreak", 3) != true {
-			if body != "" && !strings.HasSuffix(body, "}") && !strings.HasSuffix(body, ";") {
+			if body != "" && !strings.HasSuffix(body, ";") {
+				// also after }: the last statement may be a declaration that ends in an object literal
 				sb.WriteString(";")
 			}
 			sb.WriteString("break;")
 		} else {
 			x.feat("switch-fallthrough")
-			if body != "" && !strings.HasSuffix(body, "}") && !strings.HasSuffix(body, ";") {
+			if body != "" && !strings.HasSuffix(body, ";") {
+				// also after }: the last statement may be a declaration that ends in an object literal
 				sb.WriteString(";")
 			}
 		}
@@ -1489,7 +1531,7 @@ func (x *g) tryStmt(d int) string {
 	body := x.stmts(1+x.n("tryn", 2), d-1)
 	if x.chance("trythrow", 2) {
 		x.feat("throw")
-		if body != "" && !strings.HasSuffix(body, ";") && !strings.HasSuffix(body, "}") {
+		if body != "" && !strings.HasSuffix(body, ";") {
 			body += ";"
 		}
 		body += "throw" + returnArg(x.throwable(d))
@@ -1925,6 +1967,10 @@ func Gen(t *rapid.T, cfg Config) Program {
 		}
 	}
 	var sb strings.Builder
+	if x.chance("shebang", 25) {
+		x.feat("shebang")
+		sb.WriteString(x.pick("shebangline", []string{"#!/usr/bin/env node\n", "#!x\n", "#!\r\n", "#! a b \n"}))
+	}
 	if cfg.Goal == "strict" {
 		sb.WriteString(x.pick("usestrict", []string{"\"use strict\";", "'use strict';", "\"use strict\"\n"}))
 	}
